@@ -12,7 +12,7 @@ from mc import core, e1, grammar, values, refmodel
 
 ID = 'C11'
 META = {
-    'rule': "all ordered pairs (thorough: plus triples) over a pool of 20 deliberately overlapping member types, each in 17 nesting "
+    'rule': "all ordered pairs (thorough: plus triples) over a pool of 21 deliberately overlapping member types, each in 19 nesting "
             "forms (plain, nested Union, Optional outside / inside, list element, dict value, Annotated, dataclass field, generic "
             "dataclass field with the type variable on either side, after subscription) x the union of the members' own members and "
             "single-deviation neighbours; member order is read from typing.get_args of the spelled union; the result must be "
@@ -22,12 +22,12 @@ META = {
             "Non-trivial: at least two members accept the value, or the accepting member is not the first; key = (A, B, form, index of winner, #accepting).",
     'assumptions': ["members that raise a foreign exception alone are C04's business and the cell is skipped",
                     "serialisation oracle is behavioural (a member 'accepts x' if it round-trips x), see DESIGN.md C11"],
-    'bounds': {'quick': '20 x 19 ordered pairs x 17 forms', 'thorough': 'pairs + 20 x 19 x 6 triples x 4 forms'},
+    'bounds': {'quick': '21 x 20 ordered pairs x 19 forms', 'thorough': 'pairs + 21 x 20 x 6 triples x 4 forms'},
 }
 
 POOL = ['int', 'float', 'complex', 'bool', 'str', 'none', ['list', 'int'], ['list', 'float'], ['tuple', 'int', 'int'],
         ['dict', 'str', 'int'], 'dc_both', 'dc_defaults', 'dc_struct', 'lit_mixed', ['annot', 'int', 'positive'], 'enum_int',
-        'decimal', 'date', 'datetime', 'dc_strs']
+        'decimal', 'date', 'datetime', 'dc_strs', 'dc_sub']
 THIRD = ['int', 'str', 'none', ['list', 'int'], 'float', 'dc_defaults']
 EXTRA_VALUES = [5, -5, 0, 1, 2, 1.0, -2.5, '5', 'a', '2023-09-05', '2023-09-05T11:11:11', 'tomorrow', None, True,
                 [1, 2], [1.5], [1, 'a'], {}, {'a': 1}, {'a': 1, 'b': 2.0}, ['x', 'y'], 'xy', [], (3, 4), {'a': 3, 'b': 'q'}]
@@ -86,11 +86,32 @@ def forms(pane, A, B, C=None):
         _GW.append(grammar.pin(new_class('GenWhole', (pane.PaneBase, t.Generic[T_]), {'__annotations__': {'f': T_, 'g': t.List[T_]}, '__module__': 'mc.generated'})))
     out.append(('generic_whole', grammar.pin(_GW[0][U]), lambda v: {'f': v, 'g': []}, lambda r: r.f, mem))
     out.append(('generic_whole_builtin_list', grammar.pin(_GW[0][list[U]]), lambda v: {'f': [v], 'g': []}, lambda r: r.f[0], mem))
+    # the variable sits below a container INSIDE a union (Optional[List[T]]): substitution rebuilds that outer union, and typing
+    # memoises Union[...] by == of its arguments - list[Union[A, B]] == list[Union[B, A]]
+    if len(_GW) < 2:
+        _GW.append(grammar.pin(new_class('GenOptList', (pane.PaneBase, t.Generic[T_]),
+                                         {'__annotations__': {'f': t.Optional[t.List[T_]], 'g': t.Union[t.Dict[str, T_], str]},
+                                          'g': 'x', '__module__': 'mc.generated'})))
+    if t.get_origin(U) is t.Union and C is None:
+        # an equal binding with the members the other way round is made FIRST (deterministically): typing hands the union it
+        # built for that one back to pane when pane substitutes the second binding (known finding 'typing_memo_aliased')
+        grammar.pin(_GW[1][t.Union[B, A]])
+        cls = grammar.pin(_GW[1][U])
+        for fname, probe, wrap, unwrap in (
+                ('generic_whole_optional_list', lambda: t.Union[list[U], type(None)], lambda v: {'f': [v]}, lambda r: r.f[0]),
+                ('generic_whole_union_dict', lambda: t.Union[dict[str, U], str], lambda v: {'f': None, 'g': {'k': v}}, lambda r: r.g['k'])):
+            # what typing itself returns for the construction the substitution performs (no pane code involved), asked when
+            # the class is first made - pane keeps the class, and typing's memo may be emptied later
+            if (cls, fname) not in _GWA:
+                inner = t.get_args(t.get_args(probe())[0])[-1]
+                _GWA[(cls, fname)] = t.get_args(inner) if t.get_origin(inner) is t.Union else (inner,)
+            out.append((fname, cls, wrap, unwrap, ('aliased', mem, _GWA[(cls, fname)])))
     return out
 
 
 _X3: t.List[t.Any] = []
 _GW: t.List[t.Any] = []
+_GWA: t.Dict[t.Any, t.Any] = {}
 
 
 def _times3(pane):
@@ -170,6 +191,11 @@ def judge_union(pane, res, name, U, wrap, unwrap, members, v, cellinfo, cache):
     class_custom = False
     if isinstance(members, tuple) and len(members) == 2 and members[0] == 'class_custom':
         class_custom, members = True, members[1]
+    aliased = None
+    if isinstance(members, tuple) and len(members) == 3 and members[0] == 'aliased':
+        _, members, aliased = members
+        if tuple(aliased) == tuple(members):
+            aliased = None
     if members is None:
         flat = t.get_args(U)
         members = flat
@@ -208,6 +234,11 @@ def judge_union(pane, res, name, U, wrap, unwrap, members, v, cellinfo, cache):
         res['nontrivial'].add(f"{cellinfo['A']}|{cellinfo['B']}|{name}|{winner[0] if winner else '-'}|{min(nacc, 3)}")
     cost = 10 + e1.vsize(v)
     sig = {'form': name, 'A': cellinfo['A'], 'B': cellinfo['B']}
+    if aliased is not None and winner is not None and out[0] == 'ok' and not values.typed_eq(out[1], winner[1]):
+        # is the result what the left-most rule gives for the member order of the union TYPING handed back (made earlier for an
+        # equal binding)?  Then it is the known aliasing, otherwise an ordinary violation
+        w2 = next((r for r in (alone(pane, M, v) for M in aliased) if r[0] == 'ok'), None)
+        sig['typing_memo_aliased'] = bool(w2 is not None and values.typed_eq(out[1], w2[1]))
     desc = f"from_data({values.expr(data)[:80]}, {name} of Union[{cellinfo['A']}, {cellinfo['B']}{', ' + cellinfo['C'] if cellinfo.get('C') else ''}])"
     cell = dict(cellinfo, form=name, v=values.expr(v))
     if winner is None:
@@ -322,6 +353,47 @@ def run_twins(pane, res, U, members, info):
                                              f"gives {core.srepr([r[1] for r in exp], 70)}", cell, 12)
 
 
+def run_long(pane, res, U, members, vals, info):
+    """A LONG sequence (about 70 elements, in two orders) of values the union accepts: every element must come out exactly as
+    it does when converted alone - whatever was converted before it in the same call (a converter may remember, per call,
+    which member took the previous element of the same Python type, or what an equal element turned into)."""
+    from pane.errors import ConvertError
+    acc = []
+    for v in vals:
+        r = next((x for x in (alone(pane, M, v) for M in members) if x[0] != 'rej'), ('rej', None))
+        if r[0] == 'raw':
+            return
+        if r[0] == 'ok':
+            acc.append((v, r[1]))
+    if len(acc) < 2:
+        return
+    for oname, base in (('given', acc), ('reversed', acc[::-1])):
+        seq = (base * (70 // len(base) + 1))[:max(70, len(base))]
+        for ctor, wrap_t in (('list', list[U]), ('tuplevar', tuple[U, ...])):
+            try:
+                got = list(pane.from_data([values.fresh(v) for v, _ in seq], wrap_t))
+            except ConvertError as e:
+                got = e
+            except Exception:  # noqa
+                continue
+            res['evals'] += 1
+            res['transitions'] += len(seq)
+            res['validated'] += 1
+            res['nontrivial'].add(f"long|{info['A']}|{info['B']}|{ctor}")
+            sig = {'kind': 'long_sequence_elementwise', 'form': ctor, 'A': info['A'], 'B': info['B']}
+            cell = dict(info, form='long:' + ctor, order=oname)
+            if isinstance(got, Exception):
+                core.add_violation(res, sig, f"a {len(seq)}-element {ctor} of Union[{info['A']}, {info['B']}] whose elements are all accepted "
+                                             f"alone was rejected: {core.sstr(got, 80)}", cell, 20)
+                continue
+            bad = [i for i, (g, (_, w)) in enumerate(zip(got, seq)) if not values.typed_eq(g, w)]
+            if bad or len(got) != len(seq):
+                i = bad[0] if bad else len(got)
+                core.add_violation(res, sig, f"a {len(seq)}-element {ctor} of Union[{info['A']}, {info['B']}] ({oname} order): element {i} "
+                                             f"({values.expr(seq[i][0])[:40]}) came out as {core.srepr(got[i], 40)} ({type(got[i]).__name__}); converted "
+                                             f"alone the left-most accepting member gives {core.srepr(seq[i][1], 40)} ({type(seq[i][1]).__name__})", cell, 20)
+
+
 def run_pair(pane, res, ai, bi, ci, tier):
     A_ast, B_ast = POOL[ai], POOL[bi]
     C_ast = THIRD[ci] if ci is not None else None
@@ -356,6 +428,7 @@ def run_pair(pane, res, ai, bi, ci, tier):
         res['states'] += len(vals)
         if name == 'plain' and C is None and members:
             run_twins(pane, res, U, members, info)
+            run_long(pane, res, U, members, vals, info)
 
 
 LIT_VALUES = [0, 1, 2, 0.0, 1.0, True, False, 'a', 'b', 'c', None, [0], '1']
